@@ -21,6 +21,7 @@ import (
 	"fmt"
 	"sync"
 
+	getty "github.com/apache/dubbo-getty"
 	gxtime "github.com/dubbogo/gost/time"
 	"go.uber.org/atomic"
 
@@ -66,6 +67,18 @@ func (client *GettyRemotingClient) SendAsyncRequest(msg interface{}) error {
 		Body:       msg,
 	}
 	return client.gettyRemoting.SendAsync(rpcMessage, nil, client.asyncCallback)
+}
+
+// SendAsyncRequestOn sends msg on the given session instead of one chosen by the load balance
+func (client *GettyRemotingClient) SendAsyncRequestOn(session getty.Session, msg interface{}) error {
+	rpcMessage := message.RpcMessage{
+		ID:         int32(client.idGenerator.Inc()),
+		Type:       message.GettyRequestTypeRequestOneway,
+		Codec:      byte(codec.CodecTypeSeata),
+		Compressor: 0,
+		Body:       msg,
+	}
+	return client.gettyRemoting.SendAsync(rpcMessage, session, client.asyncCallback)
 }
 
 func (client *GettyRemotingClient) SendAsyncResponse(msgID int32, msg interface{}) error {
